@@ -400,72 +400,81 @@ Fixpoint replace_loop (idx : list nat) (s : aslice) (jobs : list job) (dels : li
 (* Unix()/60 of a schedule time *)
 Definition job_name_of (t : Z) : Z := Z.quot (t / sec) 60.
 
+(* every "t := nextScheduleTimeDuration(...); return t, updateStatus, nil" exit *)
+Definition fin (fuel : nat) (spec : cspec) (now : Z) (hd : list Z)
+           (st' : cstatus) (jobs' : list job) (uid' : Z) (upd : bool) (cr : list (Z * Z)) (rd : list Z)
+  : cstatus * list job * Z * rout :=
+  match requeue_after fuel (c_created spec) (st_last st') (c_deadline spec) now with
+  | None => (st', jobs', uid', mkOut None upd E_FUEL cr hd rd st')
+  | Some d => (st', jobs', uid', mkOut (Some d) upd E_OK cr hd rd st')
+  end.
+
+(* processConcurrencyPolicy 348-380: (requeue instead of creating, status,
+   server jobs, Replace deletes, update flag, ok) *)
+Definition apply_policy (spec : cspec) (st : cstatus) (jobs : list job) (upd0 : bool)
+  : bool * cstatus * list job * list Z * bool * bool :=
+  match c_policy spec with
+  | Allow => (false, st, jobs, [], upd0, true)
+  | Forbid =>
+    match st_active st with
+    | [] => (false, st, jobs, [], upd0, true)
+    | _ => (true, st, jobs, [], upd0, true)
+    end
+  | Replace =>
+    let '(s, jobs', dels, updr, ok) :=
+      replace_loop (seq 0 (length (st_active st))) (as_of (st_active st)) jobs [] false in
+    (false, set_active st (as_cur s), jobs', dels, upd0 || updr, ok)
+  end.
+
+(* createJob 381-440 and the bookkeeping of syncCronJob 286-307 *)
+Definition create_job (fuel : nat) (spec : cspec) (now : Z) (hd : list Z) (fail_create : bool)
+           (t : Z) (st1 : cstatus) (jobs1 : list job) (uid : Z) (upd1 : bool) (rd : list Z)
+  : cstatus * list job * Z * rout :=
+  let nm := job_name_of t in
+  if fail_create then (st1, jobs1, uid, mkOut None upd1 E_CREATE [] hd rd st1)
+  else
+    match find_job jobs1 nm with
+    | Some ex =>
+      (* AlreadyExists *)
+      if negb lenient then (st1, jobs1, uid, mkOut None upd1 E_CONFLICT [] hd rd st1) else
+      match j_owner ex with
+      | OwnThis =>
+        if finished (j_phase ex) then fin fuel spec now hd st1 jobs1 uid upd1 [] rd
+        else if in_active (st_active st1) (j_uid ex) then fin fuel spec now hd st1 jobs1 uid upd1 [] rd
+        else
+          let st2 := mkStatus (Some t) (st_active st1 ++ [mkRef nm (j_uid ex)]) (st_last_success st1) in
+          fin fuel spec now hd st2 jobs1 uid true [] rd
+      | _ => fin fuel spec now hd st1 jobs1 uid upd1 [] rd
+      end
+    | None =>
+      let j := mkJob nm uid OwnThis PhOther (Some now) None in
+      let jobs2 := insert_job j jobs1 in
+      if in_active (st_active st1) uid then fin fuel spec now hd st1 jobs2 (uid + 1) upd1 [(nm, t)] rd
+      else
+        let st2 := mkStatus (Some t) (st_active st1 ++ [mkRef nm uid]) (st_last_success st1) in
+        fin fuel spec now hd st2 jobs2 (uid + 1) true [(nm, t)] rd
+    end.
+
 (* the part of syncCronJob after the clean-up (235-307): [st] is the status
    after processFinishedJobs / processCtlJobAndActiveJob, [jobs] the server *)
 Definition decide (fuel : nat) (spec : cspec) (st : cstatus) (jobs : list job) (uid : Z)
            (now : Z) (fail_create : bool) (upd0 : bool) (hd : list Z)
   : cstatus * list job * Z * rout :=
-  let out rq upd err cr rd st' := mkOut rq upd err cr hd rd st' in
-  let requeue st' := requeue_after fuel (c_created spec) (st_last st') (c_deadline spec) now in
-  let fin st' jobs' uid' upd cr rd :=
-    match requeue st' with
-    | None => (st', jobs', uid', out None upd E_FUEL cr rd st')
-    | Some d => (st', jobs', uid', out (Some d) upd E_OK cr rd st')
-    end in
-  if c_suspend spec then (st, jobs, uid, out None upd0 E_OK [] [] st)
+  if c_suspend spec then (st, jobs, uid, mkOut None upd0 E_OK [] hd [] st)
   else
     match next_schedule_time fuel (c_created spec) (st_last st) (c_deadline spec) now with
-    | NsErr => (st, jobs, uid, out None upd0 E_SCHED [] [] st)
-    | NsFuel => (st, jobs, uid, out None upd0 E_FUEL [] [] st)
-    | NsOk None => fin st jobs uid upd0 [] []
+    | NsErr => (st, jobs, uid, mkOut None upd0 E_SCHED [] hd [] st)
+    | NsFuel => (st, jobs, uid, mkOut None upd0 E_FUEL [] hd [] st)
+    | NsOk None => fin fuel spec now hd st jobs uid upd0 [] []
     | NsOk (Some t) =>
-      let nm := job_name_of t in
-      if in_active_by_name (st_active st) nm ||
+      if in_active_by_name (st_active st) (job_name_of t) ||
          match st_last st with Some l => l =? t | None => false end
-      then fin st jobs uid upd0 [] []
+      then fin fuel spec now hd st jobs uid upd0 [] []
       else
-        (* processConcurrencyPolicy *)
-        let pol :=
-          match c_policy spec with
-          | Allow => (false, st, jobs, [], upd0, true)
-          | Forbid =>
-            match st_active st with
-            | [] => (false, st, jobs, [], upd0, true)
-            | _ => (true, st, jobs, [], upd0, true)
-            end
-          | Replace =>
-            let '(s, jobs', dels, updr, ok) :=
-              replace_loop (seq 0 (length (st_active st))) (as_of (st_active st)) jobs [] false in
-            (false, set_active st (as_cur s), jobs', dels, upd0 || updr, ok)
-          end in
-        let '(skip, st1, jobs1, rd, upd1, ok) := pol in
-        if negb ok then (st1, jobs1, uid, out None upd1 E_REPLACE [] rd st1)
-        else if skip then fin st1 jobs1 uid upd1 [] rd
-        else
-          (* createJob 381-440 *)
-          if fail_create then (st1, jobs1, uid, out None upd1 E_CREATE [] rd st1)
-          else
-            match find_job jobs1 nm with
-            | Some ex =>
-              (* AlreadyExists *)
-              if negb lenient then (st1, jobs1, uid, out None upd1 E_CONFLICT [] rd st1) else
-              match j_owner ex with
-              | OwnThis =>
-                if finished (j_phase ex) then fin st1 jobs1 uid upd1 [] rd
-                else if in_active (st_active st1) (j_uid ex) then fin st1 jobs1 uid upd1 [] rd
-                else
-                  let st2 := mkStatus (Some t) (st_active st1 ++ [mkRef nm (j_uid ex)]) (st_last_success st1) in
-                  fin st2 jobs1 uid true [] rd
-              | _ => fin st1 jobs1 uid upd1 [] rd
-              end
-            | None =>
-              let j := mkJob nm uid OwnThis PhOther (Some now) None in
-              let jobs2 := insert_job j jobs1 in
-              if in_active (st_active st1) uid then fin st1 jobs2 (uid + 1) upd1 [(nm, t)] rd
-              else
-                let st2 := mkStatus (Some t) (st_active st1 ++ [mkRef nm uid]) (st_last_success st1) in
-                fin st2 jobs2 (uid + 1) true [(nm, t)] rd
-            end
+        let '(skip, st1, jobs1, rd, upd1, ok) := apply_policy spec st jobs upd0 in
+        if negb ok then (st1, jobs1, uid, mkOut None upd1 E_REPLACE [] hd rd st1)
+        else if skip then fin fuel spec now hd st1 jobs1 uid upd1 [] rd
+        else create_job fuel spec now hd fail_create t st1 jobs1 uid upd1 rd
     end.
 
 Definition mine_of (jobs : list job) : list job :=
